@@ -21,7 +21,9 @@ use crate::{
 #[derive(Clone, Debug, Serialize, Deserialize)]
 pub struct PolicyCase {
     /// 0 policy never, 1 policy always (merge trigger cases), 2 interval sync, 3 policy always with
-    /// one transient fault in the first background merge pass (the next check must merge)
+    /// one transient fault in the first background merge pass (the next check must merge),
+    /// 4 policy always with a long check interval: the trigger is crossed by live writes while the
+    /// task sleeps, the merge must come with the FIRST tick after the crossing
     pub mode: u8,
     pub interval_ms: u16,
     pub jitter_pct: u8,
@@ -40,7 +42,7 @@ pub struct PolicyCase {
 
 fn strategy(_tier: Tier) -> BoxedStrategy<PolicyCase> {
     (
-        prop_oneof![2 => Just(0u8), 5 => Just(1u8), 2 => Just(2u8), 2 => Just(3u8)],
+        prop_oneof![4 => Just(0u8), 10 => Just(1u8), 4 => Just(2u8), 4 => Just(3u8), 1 => Just(4u8)],
         20u16..200,
         prop_oneof![Just(0u8), 1u8..100, Just(100u8)],
         prop_oneof![Just(2u64 << 30), 200u64..2000],
@@ -113,6 +115,65 @@ struct Run {
     fail: Option<(String, String, bool)>, // (sig, msg, positive-deadline)
     labels: Vec<String>,
     nontrivial: bool,
+}
+
+/// Policy always with a check interval of 1.5-2.5 s and little jitter; the store is opened EMPTY, and
+/// right after the open live writes push a file over the dead-bytes trigger while the task sleeps.
+/// The merge must come with the first tick after the crossing: within interval*(1+jitter) + 0.8 s of
+/// the open (a decision that is one tick old would take two intervals).
+fn live_crossing_case(c: &PolicyCase, env: &Env, dir: &std::path::Path, base_cfg: &StoreCfg, base_threads: usize, run: &mut Run) {
+    run.labels.push("policy-always-trigger-crossed-by-live-writes".into());
+    let _ = env;
+    // phase 1 wrote a pattern into `dir`; this mode wants an empty store
+    let _ = std::fs::remove_dir_all(dir);
+    std::fs::create_dir_all(dir).unwrap();
+    let interval_ms = 1500 + (c.interval_ms as u64 % 180) * 5; // 1.5 .. 2.4 s
+    let jitter = (c.jitter_pct % 20) as f64 / 100.0;
+    let merge = serde_json::json!({
+        "policy": "always",
+        "check_interval_ms": interval_ms,
+        "check_jitter": jitter,
+        "triggers": { "fragmentation": 1.0, "dead_bytes": 40 },
+    });
+    let t0 = Instant::now();
+    let kv = match catch(|| config_json(base_cfg, dir, Some(merge), None).open()) {
+        Ok(Ok(kv)) => kv,
+        _ => {
+            run.fail = Some(("open-failed".into(), "open with the policy failed".into(), false));
+            return;
+        }
+    };
+    let h = kv.get_handle();
+    // cross the trigger well inside the first sleep: overwrite one key a few times
+    std::thread::sleep(Duration::from_millis(100));
+    for i in 0..6 {
+        let _ = h.set(Bytes::from_static(b"hot"), Bytes::from(vec![b'x'; 40 + i]));
+    }
+    let crossed_at = t0.elapsed();
+    let interval = Duration::from_millis(interval_ms);
+    let deadline = interval.mul_f64(1.0 + jitter) + Duration::from_millis(800);
+    let mut seen = None;
+    while t0.elapsed() < deadline {
+        if hint_files(dir) > 0 {
+            seen = Some(t0.elapsed());
+            break;
+        }
+        std::thread::sleep(Duration::from_millis(2));
+    }
+    run.nontrivial = true;
+    if seen.is_none() {
+        run.fail = Some((
+            "merge-came-later-than-the-first-tick-after-the-trigger-was-crossed".into(),
+            format!(
+                "policy always, check interval {} ms, jitter {:.2}: live writes pushed the dead bytes over the trigger {:?} after the open (during the first sleep); no merge within {:?} of the open, i.e. not with the first tick after the crossing",
+                interval_ms, jitter, crossed_at, deadline
+            ),
+            true,
+        ));
+    }
+    drop(h);
+    drop(kv);
+    wait_bg_exit(base_threads);
 }
 
 /// Policy always, triggers exceeded, and the first background merge pass fails once (transient
@@ -247,12 +308,15 @@ fn run_once(c: &PolicyCase, env: &Env) -> Run {
     let interval = Duration::from_millis(c.interval_ms as u64);
     let jitter = c.jitter_pct as f64 / 100.0;
 
-    match c.mode % 4 {
+    match c.mode % 5 {
+        4 => {
+            live_crossing_case(c, env, &dir, &base_cfg, base_threads, &mut run);
+        }
         3 => {
             failed_pass_case(c, env, &dir, &base_cfg, base_threads, worst_dead, worst_frag, &mut run);
         }
         0 | 1 => {
-            let always = c.mode % 4 == 1;
+            let always = c.mode % 5 == 1;
             run.labels.push(if always { "policy-always".into() } else { "policy-never".into() });
             run.labels.push(if exceeded { "trigger-exceeded".into() } else { "trigger-not-exceeded".into() });
             if near_boundary {
@@ -440,7 +504,7 @@ pub fn prop() -> Prop<PolicyCase> {
     Prop {
         id: "C18",
         level: "exploration",
-        rule: "Cases: a write pattern (2-23 keys set, 0-23 overwritten, 0-7 deleted, small or 2 GiB max_file_size) written with all background activity off; an independent decoder measures the worst per-file dead bytes and fragmentation; the store is then reopened with policy never or always, check interval 20-200 ms, jitter 0-1, and triggers placed relative to the measured values: far below (exceeded), exactly at the measured value (not exceeded - the trigger rule is a strict 'exceeds'), just below (exceeded), far above. Oracles: never -> no merge evidence (no new hint file, no data file removed) during 6 intervals; always + exceeded -> merge evidence within interval*(1+jitter)+2 s with no client action, then a quiet period; always + not exceeded -> none during 6 intervals. A fourth mode fails the first background merge pass once (transient ENOSPC injected by the shim when it creates its hint file) and requires a completed merge within 3 intervals + 2 s, since the triggers stay exceeded. Interval sync (10-100 ms; in most cases with 1-3 threads writing continuously so that the writer mutex is busy when a tick comes): under the LD_PRELOAD recorder the active file must be fsynced at least 3 times in a window of 10 intervals (at least 500 ms). Non-trivial: a trigger within one unit of the measured value, a policy-never case, an observed merge followed by a quiet period, or a sync window; distinct = distinct hash of the case.",
+        rule: "Cases: a write pattern (2-23 keys set, 0-23 overwritten, 0-7 deleted, small or 2 GiB max_file_size) written with all background activity off; an independent decoder measures the worst per-file dead bytes and fragmentation; the store is then reopened with policy never or always, check interval 20-200 ms, jitter 0-1, and triggers placed relative to the measured values: far below (exceeded), exactly at the measured value (not exceeded - the trigger rule is a strict 'exceeds'), just below (exceeded), far above. Oracles: never -> no merge evidence (no new hint file, no data file removed) during 6 intervals; always + exceeded -> merge evidence within interval*(1+jitter)+2 s with no client action, then a quiet period; always + not exceeded -> none during 6 intervals. A fifth (rare, 2-3 s per case) mode opens an empty store with a check interval of 1.5-2.4 s, crosses the dead-bytes trigger by live writes during the first sleep and requires the merge with the first tick after the crossing (interval*(1+jitter)+0.8 s after the open). A fourth mode fails the first background merge pass once (transient ENOSPC injected by the shim when it creates its hint file) and requires a completed merge within 3 intervals + 2 s, since the triggers stay exceeded. Interval sync (10-100 ms; in most cases with 1-3 threads writing continuously so that the writer mutex is busy when a tick comes): under the LD_PRELOAD recorder the active file must be fsynced at least 3 times in a window of 10 intervals (at least 500 ms). Non-trivial: a trigger within one unit of the measured value, a policy-never case, an observed merge followed by a quiet period, or a sync window; distinct = distinct hash of the case.",
         assumptions: &[
             "positive deadlines carry 2 s of slack and are re-tried once before being reported; negative windows are 6 check intervals",
             "the merge window policy is not generated (the property does not mention it)",
